@@ -1,6 +1,38 @@
-/-! line protocol for C17 (stub: no model yet) -/
+import ObiVerif.Model.ReadErr
+import ObiVerif.Driver.Util
+/-! line protocol for C17 -/
 namespace ObiVerif.Driver.C17
+open ObiVerif.ReadErr ObiVerif.Driver
 
-def run (_line : String) : String := "bad-op"
+def parseErr : String → Option Err
+  | "eof" => some .eof | "ueof" => some .ueof | "other" => some .other | _ => none
+
+def kv (key : String) (s : String) : Option Nat :=
+  if s.startsWith (key ++ "=") then (s.drop (key.length + 1)).toString.toNat? else none
+
+def run (line : String) : String :=
+  match words line with
+  | ["chunk", b, _, d, e] =>
+    match kv "b" b, unhex d, parseErr e with
+    | some b, some d, some e =>
+      if b < 2 then "bad-op" else
+      let (cs, o) := readChunks endOfLastFastaEntry b ⟨d, e⟩
+      let pre := match o with | .ok => "ok" | .fatal => "fatal"
+      joinSp (pre :: cs.map hex)
+    | _, _, _ => "bad-op"
+  | ["guess", _, d, e] =>
+    match unhex d, parseErr e with
+    | some d, some e => (match guessPeek 1048576 ⟨d, e⟩ with | .ok => "ok" | .fatal => "fail")
+    | _, _ => "bad-op"
+  | ["file", _, _, _, n, e] =>
+    -- the decompressor's behaviour on the damaged file is data: `n` bytes then error class `e`
+    if e = "err=raw" then "raw" else
+    match kv "n" n, (if e.startsWith "err=" then parseErr (e.drop 4).toString else none) with
+    | some n, some e =>
+      if n = 0 then (if e = .eof then "empty" else "fail")
+      else (match guessPeek 1048576 ⟨List.replicate n 0, e⟩ with | .ok => "ok" | .fatal => "fail")
+    | _, _ => "bad-op"
+  | "cmd" :: _ => "exit-nonzero"
+  | _ => "bad-op"
 
 end ObiVerif.Driver.C17
